@@ -261,7 +261,9 @@ def check(ctx):
             for n in calls_:
                 for k in n.ast.keywords:
                     if k.arg is not None:
-                        kws[k.arg] = ast.unparse(k.value)
+                        # what the keyword receives under the scenario (a local decided by the option reads as its value)
+                        leaves = spj.sources(k.value, n) if isinstance(k.value, (ast.Name, ast.IfExp)) else [("expr", k.value)]
+                        kws[k.arg] = " | ".join(sorted({ast.unparse(pl) if isinstance(pl, ast.AST) else str(pl) for _k, pl in leaves}))
                     else:
                         for kk, pl in spj.sources(k.value, n):
                             if kk == "expr" and isinstance(pl, ast.Dict) and all(isinstance(x, ast.Constant) for x in pl.keys):
